@@ -164,6 +164,7 @@ func (s *MediaSegment) Fragmentify(timescale uint64, trex *TrexBox, duration uin
 	var of *Fragment
 
 	var cumDur uint32 = 0
+	startNewFragment := true // A zero duration sample must not start a new fragment by itself
 
 	for _, inFrag := range inFragments {
 		trackID := inFrag.Moof.Traf.Tfhd.TrackID
@@ -173,13 +174,14 @@ func (s *MediaSegment) Fragmentify(timescale uint64, trex *TrexBox, duration uin
 			return nil, err
 		}
 		for _, s := range samples {
-			if cumDur == 0 {
+			if startNewFragment {
 				var err error
 				of, err = CreateFragment(inFrag.Moof.Mfhd.SequenceNumber, trackID)
 				if err != nil {
 					return nil, err
 				}
 				outFragments = append(outFragments, of)
+				startNewFragment = false
 			}
 			//of.AddFullSample(s)
 			err = of.AddFullSampleToTrack(s, trackID)
@@ -190,6 +192,7 @@ func (s *MediaSegment) Fragmentify(timescale uint64, trex *TrexBox, duration uin
 			if cumDur >= duration {
 				// fmt.Printf("Wrote fragment with duration %d\n", cumDur)
 				cumDur = 0
+				startNewFragment = true
 			}
 		}
 	}
